@@ -47,6 +47,7 @@ package filestore
 //@ func (*FileManager).makeReader
 //@   assumed
 //@ func iface github.com/ipfs/boxo/filestore.fileReader.ReadAt
+//@   writes-args
 
 //@ func (*FileManager).readFileDataObj
 //@   prop C03
